@@ -96,6 +96,11 @@ def gen_tensors(tier):
     for r in range(1, 5):
         for sub in itertools.combinations(ent[1:], r - 1):
             yield external_tensor(TP.FLOAT, [3], [ent[0]] + list(sub))
+    # locations that are legal but not in normalised form, and entries in an unusual order
+    for loc in ("./w.bin", "sub//w.bin", "a/./b.bin", "a/../b.bin", "w.bin/", "../up.bin", "/abs/w.bin", "w b.bin", "wé.bin"):
+        yield external_tensor(TP.FLOAT, [3], [("location", loc), ("offset", "4"), ("length", "12")])
+    yield external_tensor(TP.FLOAT, [3], [("length", "12"), ("offset", "4"), ("location", "w.bin")])
+    yield external_tensor(TP.FLOAT, [3], [("location", "w.bin"), ("offset", "0")])
     t = external_tensor(TP.INT4, [5], [("location", "sub/dir/w.bin"), ("offset", "0"), ("length", "3")])
     t.doc_string = "ext doc"
     e = t.metadata_props.add()
@@ -796,6 +801,8 @@ def _norm_meta(holder):
 
 def _norm_tensor(t):
     _norm_meta(t)
+    # external_data is a key/value list like metadata_props: the order of its entries carries no information
+    _sort_repeated(t.external_data, lambda e: (e.key, e.value))
     if t.HasField("doc_string") and t.doc_string == "":
         t.ClearField("doc_string")
 
